@@ -112,6 +112,14 @@ def run_config(cls, machine, nx, seed, nproc=None):
         for i in range(len(tab)):
             tasks.append((simvc.closure_key(tab[i]), (cls, machine, tn, i, nx, seed)))
     nslots = {tn: len(getattr(mach.sim, tn)) for tn in TABLES}
+    only = os.environ.get('VERIF_SLOTS')
+    if only:
+        # selftest mode: "table:index,table:index" - only these slots (results are not cached)
+        want = set()
+        for item in only.split(','):
+            tn, ix = item.split(':')
+            want.add((tn, int(ix, 16)))
+        tasks = [t for t in tasks if (t[1][2], t[1][3]) in want]
     # longest-processing-time-first scheduling: the I/O and block-I/O closures have by far the most
     # paths, then the conditional/stack forms; one task per dispatch so the pool stays balanced
     def weight(key):
@@ -143,7 +151,7 @@ def run_all(configs=CONFIGS, nx=4, use_cache=True, verbose=True):
         fcntl.flock(lock, fcntl.LOCK_EX)
         try:
             run = None
-            if use_cache and os.path.exists(path):
+            if use_cache and not os.environ.get('VERIF_SLOTS') and os.path.exists(path):
                 try:
                     with gzip.open(path, 'rb') as f:
                         run = pickle.load(f)
@@ -155,19 +163,20 @@ def run_all(configs=CONFIGS, nx=4, use_cache=True, verbose=True):
                     print('[simrun] verifying %s/%sK slots ...' % (cls, machine), flush=True)
                 run = run_config(cls, machine, nx, seed)
                 out['cache_hit'][(cls, machine)] = False
-                tmp = path + '.tmp%d' % os.getpid()
-                with gzip.open(tmp, 'wb') as f:
-                    pickle.dump(run, f)
-                os.replace(tmp, path)
+                if not os.environ.get('VERIF_SLOTS'):
+                    tmp = path + '.tmp%d' % os.getpid()
+                    with gzip.open(tmp, 'wb') as f:
+                        pickle.dump(run, f)
+                    os.replace(tmp, path)
                 if verbose:
                     print('[simrun] %s/%sK: %d slots in %.1fs' % (cls, machine, len(run['slots']), run['wall']), flush=True)
             out['configs'][(cls, machine)] = run
         finally:
             fcntl.flock(lock, fcntl.LOCK_UN)
             lock.close()
-    # keep the cache small: drop files of other tree states
+    # keep the cache small: drop files of other tree states (not when a scratch tree is being checked)
     for f in glob.glob(os.path.join(CACHE_DIR, 'simvc_*')):
-        if h not in f:
+        if h not in f and REPO == '/repo' and not os.environ.get('VERIF_SLOTS'):
             try:
                 os.unlink(f)
             except OSError:
